@@ -31,6 +31,8 @@ def count(tier, seed):
 def pick_Y(rng, s):
     n = max(1, int(round((s["end"] - s["start"]) / s["dt"])))
     u = rng.random()
+    if u < 0.04:
+        return float(s["start"] + s["dt"] * n + float(rng.uniform(0.01, 3))), "after-end"  # begins after the last simulated time: nothing may change
     if u < 0.1:
         # a hair after / before a grid point: the grid point itself is then before / not before Y
         k = int(rng.integers(1, n + 1))
@@ -151,7 +153,14 @@ def run_case(case):
                 a, b, _ = it["entries"][int(u[0] * len(it["entries"])) % len(it["entries"])]
                 scen.add(it["name"], (a, b), ts, [0.1 + 3 * u[2] for _ in ts])
                 target = it["name"]
-            parB = scen.get_parset(base_parset, P)
+            try:
+                parB = scen.get_parset(base_parset, P)
+            except Exception as e:
+                if "has no values to use instead" in str(e):
+                    raise
+                # an overwrite whose first point lies anywhere (also beyond the last simulation time) is a valid intervention
+                R.bad("intervention-applies", "C09:scenario-cannot-be-applied[%s,%s]" % (type(e).__name__, "Y>end" if Y > float(s["end"]) else "Y<=end"), {"Y": Y, "end": float(s["end"]), "target": target, "error": str(e)[:200]})
+                return {"records": R.records(), "stats": R.stats, "nontrivial": False}
             instr = gen.build_instructions(ps) if (ps is not None and u[4] < 0.4) else None
             rA, rB = run(instr=instr), run(parset=parB, instr=instr)
         elif kind == "stop_year":
